@@ -65,6 +65,12 @@ static int no_children (const void *v) {
 	return (nsync_dll_is_empty_ (((nsync_note)v)->children));
 }
 
+/* Return whether no thread is disconnecting *v from its parent.  Assumes
+   n->note_mu held. */
+static int not_disconnecting (const void *v) {
+	return (((nsync_note)v)->disconnecting == 0);
+}
+
 #define WAIT_FOR_NO_CHILDREN(pred_, n_) nsync_mu_wait (&(n_)->note_mu, &pred_, (n_), NULL)
 #define WAKEUP_NO_CHILDREN(n_) do { } while (0)
 
@@ -117,6 +123,12 @@ static void note_notify_child (nsync_note n, nsync_note parent) {
 static void notify (nsync_note n) {
 	nsync_time t;
 	nsync_mu_lock (&n->note_mu);
+	/* If another thread is already disconnecting *n from its parent, wait
+	   for it to finish.  Otherwise this thread too would release
+	   n->note_mu holding a pointer to the parent, which is pinned only
+	   while *n is still one of its children:  the other thread removes *n
+	   from the parent, after which the parent may legitimately be freed. */
+	nsync_mu_wait (&n->note_mu, &not_disconnecting, n, NULL);
 	t = NOTIFIED_TIME (n);
 	if (nsync_time_cmp (t, nsync_time_zero) > 0) {
 		nsync_note parent;
